@@ -96,17 +96,20 @@ func (t *timeScalar) CoerceOut(v interface{}) (interface{}, error) {
 		}
 	case time.Time:
 		tt = tv
-		if y := tv.In(time.UTC).Year(); y < 0 || 9999 < y {
-			// RFC 3339 has four digits for the year.
-			err = newCoerceErr(v, "Time")
-			v = nil
-		}
 	default:
 		err = newCoerceErr(v, "Time")
 		v = nil
 	}
 	if err == nil && v != nil {
-		v = tt.In(time.UTC).Format(time.RFC3339Nano)
+		tt = tt.In(time.UTC)
+		if y := tt.Year(); y < 0 || 9999 < y {
+			// RFC 3339 has four digits for the year. A time with an
+			// offset can be in range where it is and out of range in UTC.
+			err = newCoerceErr(v, "Time")
+			v = nil
+		} else {
+			v = tt.Format(time.RFC3339Nano)
+		}
 	}
 	return v, err
 }
